@@ -200,6 +200,21 @@ def gen_sched(g):
         elif r < 0.95:
             ops.append(gen.did_close(p))
             docs[p] = None
+            if rng.random() < 0.3 and len(disk[p]) > 2:
+                # while the document is closed another tool rewrites the file: other contents of the
+                # very same size (and, under a coarse or frozen file-system clock, the same stamp)
+                t = disk[p]
+                cand = [j for j, c in enumerate(t) if c.isascii() and c.isalpha()]
+                if cand:
+                    j = rng.choice(cand)
+                    t = t[:j] + ("q" if t[j] != "q" else "z") + t[j + 1:]
+                    ls = t.split("\n")
+                    if len(ls) > 3 and rng.random() < 0.5:
+                        a, b = rng.sample(range(len(ls)), 2)
+                        ls[a], ls[b] = ls[b], ls[a]
+                        t = "\n".join(ls)
+                    disk[p] = t
+                    ops.append(gen.env_write(p, t))
             if rng.random() < 0.7:
                 open_doc(p)
         else:
